@@ -4,6 +4,7 @@ From Coq Require Import ZArith.
 From mathcomp Require Import all_ssreflect all_algebra ssrZ.
 From SsrMultinomials Require Import mpoly.
 From NP Require Import Base Poly Harness Abs Clean Shape Align Arith Expr RingLaws.
+From NP Require Import GenSource BridgeSrcC01.
 Set Implicit Arguments. Unset Strict Implicit. Unset Printing Implicit Defensive.
 Import GRing.Theory.
 Local Open Scope ring_scope.
@@ -103,6 +104,11 @@ Example C01_nonvacuous :
        then wfb r else false)].
 Proof. by vm_compute. Qed.
 
+(* the /repo functions this model was written from are still, statement by statement, the modelled ones *)
+Theorem C01_sources_are_the_modelled_ones :
+  all (all id) [:: gen_src_simple_dispatch; gen_src_multiply; gen_src_power] /\ [seq size f | f <- [:: gen_src_simple_dispatch; gen_src_multiply; gen_src_power]] = [:: 8; 10; 4]%N.
+Proof. exact: bridge_src_C01. Qed.
+
 Print Assumptions C01_add_refines.
 Print Assumptions C01_sub_refines.
 Print Assumptions C01_mul_refines.
@@ -116,3 +122,4 @@ Print Assumptions C01_distributive.
 Print Assumptions C01_mul_assoc.
 Print Assumptions C01_pow_add.
 Print Assumptions C01_bidx_id.
+Print Assumptions C01_sources_are_the_modelled_ones.
